@@ -71,6 +71,15 @@ func RunRule(p *load.Program, r *Rule) (obs []report.Obligation, analysed []stri
 		r.Run(c)
 	}()
 	report.SortObligations(c.Obs)
+	// constructs are keys: make duplicates distinct, deterministically
+	seen := map[string]int{}
+	for i := range c.Obs {
+		k := c.Obs[i].Construct
+		seen[k]++
+		if seen[k] > 1 {
+			c.Obs[i].Construct = fmt.Sprintf("%s#%d", k, seen[k])
+		}
+	}
 	for k := range c.Analysed {
 		analysed = append(analysed, k)
 	}
